@@ -611,7 +611,38 @@ func registrations(p *Program) []registration {
 						}
 					}
 				}
+				// role of the table, from the registered function type: one operand
+				// parameter → infix; none → prefix or postfix (told apart below)
+				if sig, ok := nt.Underlying().(*types.Signature); ok && sig.Params().Len() == 1 {
+					rg.table = "registerInfix"
+				} else {
+					rg.table = "nullary:" + cal.Name()
+				}
 				out = append(out, rg)
+			}
+		}
+	}
+	// of the tables of parameterless parselets the one with more entries is the
+	// prefix table (every token that can start an expression), the other the
+	// postfix table (++ and --)
+	count := map[string]int{}
+	for _, rg := range out {
+		if strings.HasPrefix(rg.table, "nullary:") {
+			count[rg.table]++
+		}
+	}
+	best := ""
+	for t, n := range count {
+		if best == "" || n > count[best] || (n == count[best] && t < best) {
+			best = t
+		}
+	}
+	for i := range out {
+		if strings.HasPrefix(out[i].table, "nullary:") {
+			if out[i].table == best {
+				out[i].table = "registerPrefix"
+			} else {
+				out[i].table = "registerPostfix"
 			}
 		}
 	}
